@@ -273,6 +273,9 @@ func calcCueItvls(segStart, segDur, utcStart, cueDur int) []cueItvl {
 		if utcEndMS < ci.endMS {
 			ci.endMS = utcEndMS
 		}
+		if ci.endMS <= ci.startMS {
+			continue // The cue ended before this segment starts (it was shown in the previous segment)
+		}
 		ci.startMS += diff
 		ci.endMS += diff
 		itvls = append(itvls, ci)
